@@ -15,7 +15,7 @@ for p in "$@"; do
   if [ -z "$mods" ]; then echo "$p: no build/$p/Properties*.vo (run ./check $p first)"; rc=1; continue; fi
   out=notes/audit/$p.txt
   { echo "# coqchk -silent -o -Q coq Verif -Q $b Run $mods   ($(coqchk -v 2>&1 | head -1))"
-    ( ulimit -s unlimited; timeout 1800 coqchk -silent -o -Q coq Verif -Q $b Run $mods 2>&1 ) | grep -v '^$' | grep -vi conda
+    ( ulimit -s unlimited; timeout ${AUDIT_TIMEOUT:-2400} coqchk -silent -o -Q coq Verif -Q $b Run $mods 2>&1 ) | grep -v '^$' | grep -vi conda
     echo "# exit=$?"; } > $out.tmp
   if grep -q "Modules were successfully checked" $out.tmp; then
     # keep the summary only: context, axioms, flags
